@@ -2,7 +2,8 @@ import TapkeeVerif.Proofs.ParamsEval1
 import TapkeeVerif.Proofs.ParamsEval2
 import TapkeeVerif.Proofs.ParamsEval3
 import TapkeeVerif.Proofs.ParamsEval4
-/- the per-method verdicts (Proofs/ParamsEval1..4.lean) combined -/
+import TapkeeVerif.Proofs.ParamsEval5
+/- the per-method verdicts (Proofs/ParamsEval1..5.lean) combined -/
 namespace TapkeeVerif.Params
 open TapkeeVerif.Front TapkeeVerif.Gen TapkeeVerif.C14
 
